@@ -45,6 +45,7 @@ CRASH_SIGS = {signal.SIGSEGV, signal.SIGBUS, signal.SIGFPE, signal.SIGABRT, sign
 BASE_JOURNAL = "2020/01/01 * (c1) Payee One\n    Assets:Cash  $10.00\n    Income:Salary\n\n2020/02/15 Payee Two\n    Expenses:Food  5.50 EUR @ $1.10\n    Assets:Cash\n"
 WORK = None          # temp dir of this run
 FUZZ_TIMEOUT = [10]
+REPL_SEQUENCES = [False]
 DEADLINE = [float("inf")]   # after this time failing inputs are reported without further shrinking
 
 
@@ -121,7 +122,7 @@ import itertools, threading
 _counter = itertools.count(1)      # next() on itertools.count is atomic under the GIL
 
 
-def run_case(case, binary=None, timeout=10, asan=False):
+def run_case(case, binary=None, timeout=10, asan=False, raw_timeout=False):
     global WORK
     binary = binary or vflib.LEDGER
     args = list(case.args)
@@ -135,7 +136,8 @@ def run_case(case, binary=None, timeout=10, asan=False):
     if asan:
         env["ASAN_OPTIONS"] = "detect_leaks=0:abort_on_error=1:allocator_may_return_null=1:detect_stack_use_after_return=0"
         env["UBSAN_OPTIONS"] = "print_stacktrace=1:halt_on_error=1"
-    cmd = ["prlimit", "--core=0", "--cpu=%d" % (timeout * (6 if asan else 1) + 2), "--fsize=%d" % (64 << 20)]
+    wall = timeout if raw_timeout else timeout * (6 if asan else 1)
+    cmd = ["prlimit", "--core=0", "--cpu=%d" % (wall + 2), "--fsize=%d" % (64 << 20)]
     if not asan:
         cmd.append("--as=%d" % (6 << 30))
     cmd += ["--", binary, "--args-only"] + args
@@ -143,7 +145,7 @@ def run_case(case, binary=None, timeout=10, asan=False):
     t0 = time.time()
     try:
         p = subprocess.run(cmd, input=case.stdin if case.stdin is not None else b"", stdout=subprocess.PIPE, stderr=subprocess.PIPE,
-                           env=env, timeout=timeout * (6 if asan else 1), cwd=WORK)
+                           env=env, timeout=wall, cwd=WORK)
         o.rc, o.out, o.err, o.timeout = p.returncode, p.stdout, p.stderr, False
     except subprocess.TimeoutExpired as ex:
         o.rc, o.out, o.err, o.timeout = None, ex.stdout or b"", ex.stderr or b"", True
@@ -158,16 +160,51 @@ def run_case(case, binary=None, timeout=10, asan=False):
     return o
 
 
+LOADSTATS = {"slow-under-load": 0, "killed-under-load": 0, "reference_run_s": []}
+
+
+def reference_time(binary):
+    """Wall time of a trivial run (`ledger --version`) right now: the yardstick for every time limit on a loaded machine."""
+    ts = []
+    for _ in range(3):
+        t0 = time.time()
+        try:
+            subprocess.run([binary, "--version"], stdout=subprocess.DEVNULL, stderr=subprocess.DEVNULL, timeout=120)
+        except Exception:
+            pass
+        ts.append(time.time() - t0)
+    ts.sort()
+    LOADSTATS["reference_run_s"].append(round(ts[1], 3))
+    return ts[1]
+
+
+def generous_limit(binary, asan):
+    """At least 60 s; scaled up when even a trivial run is slow (a normal trivial run takes ~10 ms natively)."""
+    ref = reference_time(binary)
+    return int(min(600, max(60, 3000 * ref) * (3 if asan else 1)))
+
+
 def confirm_bad(case, binary, asan, first):
-    """A hang is only a hang if it repeats when run alone; a crash must repeat too."""
+    """Nothing is reported from a parallel first pass alone.  The input is run again by itself: a crash must repeat;
+    a timeout (or a SIGKILL, which may be the OOM killer) is re-tried with a generous limit scaled by the time a
+    trivial run takes at this moment, and counts as slow-under-load / killed-under-load when it then completes."""
     kind = first.bad()
-    if kind is None:
+    killed = first.rc is not None and first.rc == -signal.SIGKILL
+    if kind is None and not killed:
         return None
-    again = run_case(case, binary, timeout=6 if kind == "hang" and not asan else 10, asan=asan)
-    k2 = again.bad()
-    if k2 is None:
-        return None
-    return k2
+    if kind == "hang" or killed:
+        limit = generous_limit(binary, asan)
+        again = run_case(case, binary, timeout=limit, asan=asan, raw_timeout=True)
+        k2 = again.bad()
+        if again.rc is not None and again.rc == -signal.SIGKILL:
+            return "killed"
+        if k2 is None:
+            LOADSTATS["slow-under-load" if kind == "hang" else "killed-under-load"] += 1
+        return k2
+    again = run_case(case, binary, timeout=10, asan=asan)
+    if again.timeout:           # crashed in the crowd, slow alone: decide with the generous limit
+        again = run_case(case, binary, timeout=generous_limit(binary, asan), asan=asan, raw_timeout=True)
+    return again.bad()
 
 
 # ---------------------------------------------------------------------------
@@ -491,6 +528,9 @@ def suspects(case, sites):
         if a.startswith("--") and len(a.split("=")[0]) - 2 == c - 1:
             S.append(("C11:overflow:option.cc:find_option:buf", "long option name of exactly %d bytes" % (c - 1),
                       Case(case.args[:i] + [a[:20]] + case.args[i + 1:], case.journal, case.stdin, case.kind)))
+    if re.search(r"lot_(tag|date|price)\(\s*null", alltext):
+        S.append(("C11:crash:session.cc:fn_lot_x:null-amount", "lot_tag / lot_date / lot_price applied to a null value (an amount with no quantity is dereferenced)",
+                  _map_texts(case, lambda t: re.sub(r"(lot_(?:tag|date|price)\(\s*)null", r"\g<1>1", t))))
     if "--script" in case.args:
         i = case.args.index("--script")
         S.append(("C11:hang:main.cc:script-loop", "--script FILE: the read loop tests only eof(), so a missing file or a line of 1023+ bytes loops forever",
@@ -631,13 +671,14 @@ def shrink(case, binary, asan, kind, budget=None):
     """Delta-debug journal lines, then arguments, then characters, keeping the same kind of failure."""
     hang = kind == "hang"
     budget = budget or (12 if hang else 500 if not asan else 100)
+    hang_t = max(2, int(400 * reference_time(binary))) if hang else 0
     runs = [0]
 
     def fails(c):
         if runs[0] >= budget or time.time() > DEADLINE[0]:
             return False
         runs[0] += 1
-        return run_case(c, binary, timeout=2 if hang else 10, asan=asan).bad() == kind
+        return run_case(c, binary, timeout=hang_t if hang else 10, asan=asan).bad() == kind
     cur = case
     if cur.journal and cur.journal.count(b"\n") >= 2:
         lines = ddmin(cur.journal.split(b"\n"), lambda l: fails(Case(cur.args, b"\n".join(l), cur.stdin, cur.kind)))
@@ -674,7 +715,11 @@ def report_failure(ctx, case, outcome, binary, asan, hint=None):
     """A run died / hung / tripped a sanitizer: confirm, find the root cause, shrink, report."""
     kind = confirm_bad(case, binary, asan, outcome)
     if kind is None:
-        ctx.feature("flaky-not-reproduced")
+        ctx.feature("not-reproduced-alone")
+        return
+    if kind == "killed":
+        ctx.violation("C11:killed:" + (case.args[0] if case.args else "repl")[:20], "ledger is killed (SIGKILL, memory exhaustion?) on this input even when run alone",
+                      {"case": case.to_json() if case.size() < 300000 else {"too_large": case.size()}, "observed": "sigkill twice"})
         return
     ctx.feature("fail:" + kind)
     for fp, what, neutral in suspects(case, ctx.sites):
@@ -742,6 +787,8 @@ PROBES = [
     Case(["eval", "x=x; x"], kind="probe"),
     Case(["--script", "/nonexistent/c11-script"], BASE_JOURNAL, kind="probe"),
     Case(["reg", "-S", " "], BASE_JOURNAL, kind="probe"),
+    Case(["bal", "-P", "--account", "1"], "2-3\n x  0", kind="probe"),
+    Case(["eval", "lot_tag(null)"], kind="probe"), Case(["eval", "lot_date(null)"], kind="probe"), Case(["eval", "lot_price(null)"], kind="probe"),
     Case([], BASE_JOURNAL, stdin="!", kind="probe"),            # visible under ASan only (use after free in the error message)
     Case(["reg", "--budget", "--anon"], "~every 2 weeks 2010/2/3\n e  0", kind="probe"),
     Case([], "1/1\n d  5@$1\n A", stdin="register a l -X " + "Gapvdrfw" * 51 + "\npd 'w0'\ncsv --align-intervals --wide --period=quarterly", kind="probe"),
@@ -754,12 +801,147 @@ def run_probes(ctx, binary, asan):
     for c, o in zip(PROBES, outs):
         ctx.count()
         ctx.feature("probe")
-        if o.bad():
+        if o.bad() or o.rc == -signal.SIGKILL:
             failing.append((c, o))
         else:
             ctx.traces_validated += 1
     for c, o in failing:
         report_failure(ctx, c, o, binary, asan)
+
+
+FORMAT_COMMANDS = [
+    (["reg", "--format"], True), (["bal", "--format"], True), (["reg", "--register-format"], True), (["bal", "--balance-format"], True),
+    (["cleared", "--cleared-format"], True), (["budget", "--budget-format"], True), (["csv", "--csv-format"], True),
+    (["prices", "--prices-format"], True), (["pricedb", "--pricedb-format"], True), (["reg", "-j", "--plot-amount-format"], True),
+    (["reg", "-J", "--plot-total-format"], True), (["reg", "--prepend-format"], False), (["bal", "--prepend-format"], False),
+    (["reg", "--group-by", "payee", "--group-title-format"], False), (["format"], False), (["print", "--format"], True), (["equity", "--format"], True),
+]
+BOUNDARY_JOURNAL = BASE_JOURNAL + "\n~ Monthly\n    Expenses:Food  $10\n    Assets:Cash\n\nP 2020/03/01 EUR $1.20\n"
+
+
+def format_boundary_cases():
+    """Every element kind of format_t::parse_elements with its numeric fields at the edges; `%/` continuation lines whose
+    `%$N` back-reference is 0, 1, count-1, count, count+1, 9, A, F, G (format.cc 252-276).  Returns [(case, expected class or None)]."""
+    out = []
+    firsts = [(["%(date)"], "EXPR"), (["%(date)", " ", "%(account)"], None), (["lit ", "%D", "\\n", "%-10.20(payee)", " x ", "%(amount)"], None),
+              (["%t", "%T", "%a"], None), (["%%", "%(total)"], None), (["only literal"], None)]
+    for pieces, _ in firsts:
+        types = []
+        for pc in pieces:
+            types.append("E" if pc.startswith("%") and pc != "%%" else "S")
+        valid = 1 + sum(1 for t in types[1:] if t == "E")
+        first = "".join(pieces)
+        ns = sorted({"0", "1", str(max(valid - 1, 0)), str(valid), str(valid + 1)} | {"9", "A", "F", "G", "x", ""})
+        for n in ns:
+            for nxt in ("  %$" + n + "\\n", "%-8.3$" + n, "a%$" + n + "b%$1"):
+                for k, (cmd, has_tmpl) in enumerate(FORMAT_COMMANDS):
+                    if nxt != "  %$" + n + "\\n" and k > 3:
+                        continue
+                    fmt = first + "%/" + nxt
+                    exp = None
+                    if has_tmpl and k < 2 and nxt == "  %$" + n + "\\n":
+                        if n == "" or n == "0" or n not in "123456789ABCDEF":
+                            exp = "err:digit"
+                        elif int(n, 16) <= valid:
+                            exp = "ok"
+                        else:
+                            exp = "err:nonexistent"
+                    out.append((Case(cmd + [fmt], BOUNDARY_JOURNAL, kind="boundary:format-backref"), exp))
+            # three-part formats: the back-reference sits in the separator part
+            out.append((Case(["bal", "--format", first + "%/%$1%/--%$" + n + "--\\n"], BOUNDARY_JOURNAL, kind="boundary:format-backref"), None))
+            out.append((Case(["reg", "--format", first + "%/%$1%/--%$" + n + "--\\n"], BOUNDARY_JOURNAL, kind="boundary:format-backref"), None))
+    # a back-reference with no template at all
+    for cmd, _ in FORMAT_COMMANDS:
+        out.append((Case(cmd + ["%$1 %(account)"], BOUNDARY_JOURNAL, kind="boundary:format-backref"), None))
+    # widths / flags / every element kind
+    kinds = ["(account)", "{amount}", "a", "t", "%", "$1", "q", ""]
+    for w in FMT_WIDTHS:
+        for mx in ["", ".", ".0", ".1", ".255", ".99999", ".18446744073709551617"]:
+            for fl in ["", "-", "--"]:
+                for kd in kinds:
+                    el = "%" + fl + w + mx + kd
+                    out.append((Case(["reg", "--format", "%(date) " + el + "\\n"], BOUNDARY_JOURNAL, kind="boundary:format-width"), None))
+                    if kd in ("(account)", "{amount}", "$1"):
+                        out.append((Case(["bal", "--format", "%(account)%/" + el + "\\n"], BOUNDARY_JOURNAL, kind="boundary:format-width"), None))
+    for esc in list("bfnrtv\\x%0") + [""]:
+        out.append((Case(["reg", "--format", "a\\" + esc + "b"], BOUNDARY_JOURNAL, kind="boundary:format-escape"), None))
+        out.append((Case(["format", "a\\" + esc], None, kind="boundary:format-escape"), None))
+    return out
+
+
+STRFTIME_MODS = ["", "E", "O", "-", "_", "0", "^", "#", "10", "+", "5000"]
+
+
+def minilang_boundary_cases():
+    """Boundary streams for the other options that take a mini-language: sort keys, value expressions, periods, strftime/strptime formats."""
+    out = []
+    J = BOUNDARY_JOURNAL
+    sorts = ["date", "-date", "date, -amount", "-", ",", "date,", ",date", " ", "", "-(-amount)", "--amount", "(date, payee)", "date; payee", "total", "-total",
+             "account", "display_amount", "x", "1", "-1", "amount, amount, amount, amount, amount, amount", "-abs(amount)", "payee, -", "date,,amount", "(", ")", "-()"]
+    for sk in sorts:
+        for cmd in (["reg", "-S"], ["bal", "-S"], ["reg", "--sort-xacts"], ["print", "--sort"], ["reg", "--sort-all"], ["bal", "--flat", "--sort"], ["accounts", "--sort"],
+                    ["payees", "-S"], ["tags", "-S"], ["commodities", "-S"], ["csv", "-S"], ["budget", "-S"], ["cleared", "-S"], ["equity", "-S"]):
+            out.append(Case(cmd + [sk], J, kind="boundary:sort"))
+    exprs = ["amount", "total", "1", "0", "", " ", "x", "amount * 2", "amount / 0", "int(1)/int(0)", "'s'", "/re/", "[2020/01/01]", "amount, total", "amount; total",
+             "x = 1", "(amount", "amount)", "market(amount, date, 'EUR')", "null", "-", "!", "amount ? 1 : ", "f(x) = x; f", "x -> x", "1 2", "date", "account", "payee",
+             "true", "false", "any()", "all()", "has_tag()", "tag()", "to_amount()", "format_date()", "justify()", "roundto()", "quoted()", "join()"]
+    for e in exprs:
+        for cmd in (["reg", "--display-amount"], ["reg", "--display-total"], ["bal", "--display-total"], ["reg", "--amount"], ["bal", "--total"], ["reg", "--limit"],
+                    ["reg", "--display"], ["reg", "--only"], ["reg", "--bold-if"], ["reg", "--group-by"], ["reg", "--account"], ["reg", "--payee"], ["bal", "--limit"],
+                    ["reg", "--forecast-years", "1", "--forecast-while"], ["eval"], ["parse"], ["expr"]):
+            out.append(Case(cmd + [e], J if cmd[0] not in ("eval",) else None, kind="boundary:expr-option"))
+    units = ["day", "days", "week", "weeks", "month", "months", "quarter", "quarters", "year", "years", ""]
+    for n in ["0", "1", "2", "65535", "65536", "4294967296", "99999999999999999999", "-1", ""]:
+        for u in units:
+            for cmd in (["reg", "-p"], ["period"], ["bal", "--period"]):
+                out.append(Case(cmd + ["every %s %s" % (n, u)], J if cmd[0] != "period" else None, kind="boundary:period"))
+            out.append(Case(["reg", "--budget"], J + "\n~ every %s %s\n    A  $1\n    B\n" % (n, u), kind="boundary:period"))
+    for pe in ["from 1400/01/01", "to 9999/12/31", "from 10000/01/01", "in 2020/02/30", "since 2020/13/01", "this", "last", "next", "every", "from", "to", "in", "until",
+               "monday", "every monday", "jan", "in jan 2020", "2020", "2020/02", "2020/02/29", "2021/02/29", "from 2020/01/01 to 2020/01/01", "from 2021 to 2020",
+               "this month", "last 0 months", "next 65536 days", "0 days ago", "65535 years hence", "daily from 1400/01/01 to 1400/01/03", "every 1 day in 9999",
+               "weekly", "biweekly", "bimonthly", "quarterly", "yearly", "daily", "every day", "every every", "-", "/", "2020/", "/2020", "2020-", "1/2/3/4", ".", "today today"]:
+        for cmd in (["reg", "-p"], ["period"], ["bal", "--begin"], ["bal", "--end"], ["reg", "--now"]):
+            out.append(Case(cmd + [pe], J if cmd[0] != "period" else None, kind="boundary:period"))
+    letters = "aAbBcCdDeFgGhHIjklmMnpPrRsStTuUVwWxXyYzZEOfikLNqvJKoQ+%"
+    for L in letters:
+        for mod in STRFTIME_MODS:
+            f = "%" + mod + L
+            out.append(Case(["reg", "--date-format", f], J, kind="boundary:strftime"))
+            if mod in ("", "E", "O", "10"):
+                out.append(Case(["reg", "--datetime-format", f, "--format", "%(format_datetime(now))|%(date)\\n"], J, kind="boundary:strftime"))
+                out.append(Case(["reg", "--input-date-format", f], "2020/01/15 p\n    A  $1\n    B\n15 q\n    A  $2\n    B\n", kind="boundary:strptime"))
+    for f in ["%", "%%", "%%%", "%c" * 10, "%c" * 40, "%A %B " * 30, "%5000Y", "%Y" * 64, "x" * 126, "x" * 127, "x" * 128, "x" * 200, "%x" * 20, "", " "]:
+        out.append(Case(["reg", "--date-format", f], J, kind="boundary:strftime"))
+        out.append(Case(["reg", "--input-date-format", f], "2020/01/15 p\n    A  $1\n    B\n", kind="boundary:strptime"))
+        out.append(Case(["print", "--date-format", f], J, kind="boundary:strftime"))
+    return out
+
+
+def boundary_streams(ctx, binary, asan):
+    fcases = format_boundary_cases()
+    cases = [c for c, _ in fcases] + minilang_boundary_cases()
+    exps = [e for _, e in fcases] + [None] * (len(cases) - len(fcases))
+    outs = vflib.pmap(lambda c: run_case(c, binary, timeout=FUZZ_TIMEOUT[0], asan=asan), cases)
+    failing = []
+    for c, e, o in zip(cases, exps, outs):
+        ctx.count()
+        ctx.feature(c.kind)
+        if o.bad() or o.rc == -signal.SIGKILL:
+            failing.append((c, o))
+            continue
+        if e is not None:
+            err = _err_last(o.err)
+            got = "ok" if o.rc == 0 else "err:nonexistent" if "non-existent prior field" in err else "err:digit" if "must be a digit" in err else "err:" + err
+            if got != e:
+                ctx.tie_broken("corr:format-backref", "format %r: expected %s, ledger: %s" % (c.args[-1], e, got))
+                ctx.mism.append({"format": c.args[-1], "expected": e, "ledger": got})
+                continue
+            ctx.nontrivial(("backref", tuple(c.args)))
+        elif (o.rc or 0) > 0 or c.kind.startswith("boundary:format"):
+            ctx.nontrivial(c.key())
+        ctx.traces_validated += 1
+    ctx.extra_cov["boundary_cases"] = ctx.extra_cov.get("boundary_cases", 0) + len(cases)
+    handle_failures(ctx, failing, binary, asan)
 
 
 def canonical_witness(fp, sites):
@@ -783,6 +965,7 @@ WITNESSES = {
     "C11:sigsegv:repl-pop-empty-stack": Case([], BASE_JOURNAL, stdin="pop\npop\npop\neval 1\n", kind="witness"),
     "C11:hang:parser.cc:parse_logic_expr:no-assign-equal": Case(["bal"], "2019/01/15 p\n    A  (amount == 1)\n    B\n", kind="witness"),
     "C11:hang:main.cc:script-loop": Case(["--script", "/nonexistent/c11-script"], BASE_JOURNAL, kind="witness"),
+    "C11:crash:session.cc:fn_lot_x:null-amount": Case(["eval", "lot_tag(null)"], kind="witness"),
     "C11:uaf:repl-xact-then-report": Case([], "2020/2/5 ayee\n d  0\n", stdin="xact e ''0\nbal\n", kind="witness"),
 }
 
@@ -887,9 +1070,9 @@ def replay_witnesses(ctx, sites, fmt_bs_checked, native, asan_bin):
             ctx.count()
             o = run_case(c, b, asan=(where == "asan"), timeout=6 if where == "native" else 10)
             if o.bad():
-                o2 = run_case(c, b, asan=(where == "asan"), timeout=6 if where == "native" else 10)
-                if o2.bad():
-                    res = (where, o2.bad())
+                k2 = confirm_bad(c, b, where == "asan", o)
+                if k2:
+                    res = (where, k2)
                     break
         if res:
             ctx.nontrivial(("witness", fp))
@@ -1060,28 +1243,54 @@ def g_period(rng):
     return " ".join(parts)
 
 
+FMT_WIDTHS = ["", "0", "1", "9", "10", "255", "256", "65535", "99999", "18446744073709551617", "007"]
+FMT_LETTERS = "dDSBbEeXYCPaAtTN"
+
+
+def g_fmt_element(rng, with_backref):
+    """One element of every kind format_t::parse_elements knows (format.cc 126-420), numeric fields at their edges."""
+    r = rng.random()
+    flags = rng.choice(["", "", "-", "--", "---"])
+    w = rng.choice(FMT_WIDTHS) if rng.random() < 0.6 else str(rng.randint(0, 300))
+    mx = rng.choice(["", "", "." + rng.choice(FMT_WIDTHS), ".", "." + str(rng.randint(0, 300))])
+    pre = "%" + flags + w + mx
+    if r < 0.22:
+        return pre + "(" + rng.choice(["date", "account", "payee", "amount", "total", "display_amount", "1", "", " ", "x", "amount, true", "justify(amount, 5, 10, true, false)",
+                                       "ansify_if(account, blue)", g_expr(rng, 3)]) + ")"
+    if r < 0.36:
+        return pre + "{" + rng.choice(["amount", "total", "1", "", "x", "amount, bold", "amount, 1, 2", g_expr(rng, 3)]) + "}"
+    if r < 0.5:
+        return pre + rng.choice(FMT_LETTERS)
+    if r < 0.56:
+        return pre + rng.choice("cfghijklmnopqrsuvwxyzFGHIJKLMOQRUVWZ0[]|_/")
+    if r < 0.62:
+        return pre + "%"
+    if r < 0.8 and with_backref:
+        return pre + "$" + rng.choice(list("0123456789ABCDEFG") + ["", "10", "a", "$"])
+    if r < 0.88:
+        return rng.choice(["\\b", "\\f", "\\n", "\\r", "\\t", "\\v", "\\\\", "\\x", "\\%", "\\"]).replace("\\\\", "\\")
+    if r < 0.94:
+        return rng.choice(["%", "%-", "%1", "%.", "%1.", "%(", "%{", "%((", "%(1", "%$", "%-$", "%5$"])
+    return g_word(rng, rng.choice([1, 3, 10, g_len(rng)]))
+
+
 def g_format(rng):
-    parts = []
-    for _ in range(rng.randint(1, 6)):
-        r = rng.random()
-        if r < 0.3:
-            parts.append(g_word(rng, rng.choice([1, 3, 10, g_len(rng)])))
-        elif r < 0.6:
-            w = rng.choice(["", "-", "10", "-10", "10.5", ".5", "-20.20", str(rng.randint(0, 300)), "0", "." , "-."])
-            parts.append("%" + w + rng.choice(["(" + g_expr(rng, 2) + ")", "{" + g_expr(rng, 2) + "}", "d", "D", "S", "b", "B", "X", "Y", "C", "P", "a", "A", "t", "T", "N", "n",
-                                               "|", "_", "%", "$1", "$0", "$9", "$A", "$G", "(", "{", "q", "", "[", "/"]))
-        elif r < 0.8:
-            parts.append(rng.choice(["\\n", "\\t", "\\\\", "\\x", "\\", "%%", "\\%"]))
-        else:
-            parts.append(rng.choice(["%", "%-", "%1", "%.", "%(", "%{", "%((", "%(1", "%$"]))
-    return "".join(parts)
+    def part(backref):
+        return "".join(g_fmt_element(rng, backref) for _ in range(rng.randint(1, 6)))
+    r = rng.random()
+    if r < 0.5:
+        return part(rng.random() < 0.3)
+    if r < 0.85:
+        return part(False) + "%/" + part(True)
+    return part(False) + "%/" + part(True) + "%/" + part(True)
 
 
 OPTS = [("-p", g_period), ("--period", g_period), ("-b", g_date), ("--begin", g_date), ("-e", g_date), ("--end", g_date), ("--now", g_date),
         ("-l", lambda r: g_expr(r, 2)), ("--limit", lambda r: g_expr(r, 2)), ("-d", lambda r: g_expr(r, 2)), ("--display", lambda r: g_expr(r, 2)),
         ("--only", lambda r: g_expr(r, 2)), ("-S", lambda r: g_expr(r, 3)), ("--sort", lambda r: g_expr(r, 3)), ("--sort-xacts", lambda r: g_expr(r, 3)),
         ("-F", g_format), ("--format", g_format), ("--prepend-format", g_format), ("--balance-format", g_format), ("--register-format", g_format),
-        ("--csv-format", g_format), ("--plot-amount-format", g_format), ("--prices-format", g_format),
+        ("--csv-format", g_format), ("--plot-amount-format", g_format), ("--plot-total-format", g_format), ("--prices-format", g_format),
+        ("--pricedb-format", g_format), ("--cleared-format", g_format), ("--budget-format", g_format), ("--group-title-format", g_format),
         ("-t", lambda r: g_expr(r, 2)), ("--amount", lambda r: g_expr(r, 2)), ("-T", lambda r: g_expr(r, 2)), ("--total", lambda r: g_expr(r, 2)),
         ("--display-amount", lambda r: g_expr(r, 2)), ("--display-total", lambda r: g_expr(r, 2)), ("--group-by", lambda r: g_expr(r, 3)),
         ("--group-title-format", g_format), ("--bold-if", lambda r: g_expr(r, 2)), ("--account", lambda r: g_expr(r, 3)), ("--payee", lambda r: g_expr(r, 3)),
@@ -1328,7 +1537,8 @@ def fuzz(ctx, n_cases, binary, asan, items):
         else:
             # REPL / script input
             lines = []
-            for _ in range(rng.randint(1, 6)):
+            # several commands in one session share report state: sequences are explored in the thorough tier only
+            for _ in range(rng.randint(1, 6) if REPL_SEQUENCES[0] else 1):
                 a = g_args(rng, None)
                 lines.append(" ".join(("'%s'" % x.replace("'", "") if (" " in x or not x) else x) for x in a))
             cases.append(Case([], BASE_JOURNAL, stdin="\n".join(lines) + "\n", kind="grammar:repl"))
@@ -1346,7 +1556,7 @@ def fuzz(ctx, n_cases, binary, asan, items):
         if c.size() > 4096:
             ctx.feature("input>4096B")
         bad = o.bad()
-        if bad:
+        if bad or o.rc == -signal.SIGKILL:
             failing.append((c, o))
             continue
         rc = o.rc
@@ -1411,6 +1621,7 @@ def run(tier, seed):
         ctx.extra_cov["asan_binary"] = bool(asan_bin)
         DEADLINE[0] = ctx.t0 + (120 if tier == "quick" else 1500)
         FUZZ_TIMEOUT[0] = 6 if tier == "quick" else 10
+        REPL_SEQUENCES[0] = tier == "thorough"
         sites, maxline, fmt_bs, zero_rejected = model_sites()
         ctx.extra_cov["period_zero_rejected_by_parser"] = zero_rejected
         ctx.sites = sites
@@ -1426,8 +1637,10 @@ def run(tier, seed):
             correspondence(ctx, sites, maxline, asan_bin, True, False)
         alias_correspondence(ctx, native, False, 400 if deep else 80)
         run_probes(ctx, native, False)
+        boundary_streams(ctx, native, False)
         if tier == "thorough" and asan_bin:
             run_probes(ctx, asan_bin, True)
+            boundary_streams(ctx, asan_bin, True)
         vflib.log("C11: probes done at %.1fs" % (time.time() - ctx.t0))
         # step.to model sanity against its theorem on a few values (pure model; the binary side is C13's)
         items = corpus()
@@ -1441,6 +1654,9 @@ def run(tier, seed):
                 fuzz(ctx, 50000, asan_bin, True, items)
         if ctx.mism:
             ctx.extra_cov["mismatches"] = ctx.mism[:10]
+        ctx.feature("slow-under-load", LOADSTATS["slow-under-load"])
+        ctx.feature("killed-under-load", LOADSTATS["killed-under-load"])
+        ctx.extra_cov["reference_run_s"] = LOADSTATS["reference_run_s"][:20]
         return ctx.finish()
     finally:
         shutil.rmtree(WORK, ignore_errors=True)
